@@ -88,14 +88,17 @@ def run(rep, tier, seed):
     # child, or the tree walk does not object to it either (the element named metadata: content not looked at).
     nP = 0
     for e in sorted(W):
-        for where in ("last", "first", "{u}", "x}", "x:", "Cap", " pad"):
+        for where in ("last", "first", "last-prefixed", "{u}", "x}", "x:", "Cap", " pad"):
             try:
                 t = build(e)
             except Exception:  # noqa: BLE001 - reported above
                 break
-            if where in ("last", "first"):
+            if where in ("last", "first", "last-prefixed"):
                 probe = Node("zzNotAKnownElement")
-                t.add_child(probe, index=None if where == "last" else 0)
+                if where == "last-prefixed":           # a qualified foreign element, as an XML import of <stmml:x> leaves it
+                    probe.prefix = "stmml"
+                    probe.add_namespace("stmml", "http://www.xml-cml.org/schema/stmml-1.1")
+                t.add_child(probe, index=0 if where == "first" else None)
             else:
                 # a child the rule DOES list, renamed in place into a look-alike that is not a known element
                 if not t.children:
